@@ -44,6 +44,7 @@ type Workload struct {
 	SaveTargetMs int             `json:"save_target_ms"`
 	MaxDataFile  uint64          `json:"max_data_file"`
 	Compress     bool            `json:"compress"`
+	Purge        bool            `json:"purge"` // utxo.UTXO_PURGE_UNSPENDABLE, as a freshly configured client runs
 }
 
 type State struct {
@@ -62,6 +63,21 @@ type ReopenResult struct {
 func dumpState(n *chainsim.Node) *State {
 	h, ht := n.Tip()
 	return &State{Tip: h.String(), Height: ht, Utxo: utxoList(n.DumpUTXO())}
+}
+
+// refList lists a reference set the way the node is expected to hold it (without unspendable outputs when the
+// purge option is on).
+func refList(u refchain.UTXO) []string {
+	if !chainsim.PurgeUnspendable {
+		return utxoList(u)
+	}
+	f := refchain.UTXO{}
+	for k, c := range u {
+		if !chainsim.RefUnspendable(c.Script) {
+			f[k] = c
+		}
+	}
+	return utxoList(f)
 }
 
 func utxoList(u refchain.UTXO) []string {
@@ -120,6 +136,7 @@ func worker(wlFile, dir, journal string) {
 	if json.Unmarshal(b, &w) != nil {
 		os.Exit(9)
 	}
+	chainsim.SetPurge(w.Purge)
 	utxo.UTXO_WRITING_TIME_TARGET = time.Duration(w.SaveTargetMs) * time.Millisecond
 	n := chainsim.OpenNode(dir, w.Params, chainsim.NodeOpts{BDB: bdbOpts(&w)})
 	jf, _ := os.OpenFile(journal, os.O_CREATE|os.O_WRONLY|os.O_APPEND, 0o644)
@@ -152,6 +169,7 @@ func reopen(wlFile, dir, mode, out string) {
 	var w Workload
 	b, _ := os.ReadFile(wlFile)
 	json.Unmarshal(b, &w)
+	chainsim.SetPurge(w.Purge)
 	res := &ReopenResult{}
 	write := func() {
 		jb, _ := json.Marshal(res)
@@ -188,6 +206,7 @@ func reopenDump(wlFile, dir, mode, out string) {
 	var w Workload
 	b, _ := os.ReadFile(wlFile)
 	json.Unmarshal(b, &w)
+	chainsim.SetPurge(w.Purge)
 	res := &ReopenResult{}
 	defer func() {
 		if r := recover(); r != nil {
@@ -264,7 +283,7 @@ func makePlan(seed int64, variant int) *plan {
 	ref := refchain.NewChain(p, func() int64 { return time.Now().Unix() })
 	g := chainsim.NewGen(r, p, ref)
 	pl := &plan{ref: ref}
-	pl.w = Workload{Seed: seed, Params: p, SaveTargetMs: []int{0, 300, 0, 150}[variant%4], Compress: variant%2 == 1}
+	pl.w = Workload{Seed: seed, Params: p, SaveTargetMs: []int{0, 300, 0, 150}[variant%4], Compress: variant%2 == 1, Purge: variant%3 == 1}
 	if variant%4 == 3 {
 		pl.w.MaxDataFile = 40000 // data-file roll-over every few blocks
 	}
@@ -419,10 +438,11 @@ func fileSize(p string) int64 {
 // record boundaries and inside records, and applies the recovery oracle to each result.
 func truncationTests(run *vlib.Run, tmp string, seed int64) {
 	pl := makeTruncPlan(seed)
+	chainsim.PurgeUnspendable = pl.w.Purge
 	wlFile := tmp + "/trunc-wl.json"
 	jb, _ := json.Marshal(&pl.w)
 	os.WriteFile(wlFile, jb, 0o644)
-	finalWant := utxoList(pl.ref.Utxo)
+	finalWant := refList(pl.ref.Utxo)
 	dir := tmp + "/trunc-base"
 	res := runBin([]string{"worker", wlFile, dir, dir + ".journal"}, nil, 10*time.Minute)
 	if os.Getenv("VERIF_DEBUG") != "" {
@@ -551,10 +571,14 @@ func Main() {
 	var mu sync.Mutex
 	for pi := 0; pi < nplans; pi++ {
 		pl := makePlan(run.Seed*100+int64(pi), pi)
+		chainsim.PurgeUnspendable = pl.w.Purge // how reference sets are listed for this plan (the node runs in child processes)
+		if pl.w.Purge {
+			run.Inc("plans_with_purge_unspendable")
+		}
 		wlFile := fmt.Sprintf("%s/wl%d.json", tmp, pi)
 		jb, _ := json.Marshal(&pl.w)
 		os.WriteFile(wlFile, jb, 0o644)
-		finalWant := utxoList(pl.ref.Utxo)
+		finalWant := refList(pl.ref.Utxo)
 
 		// pass 1: trace run (no crash) + clean restart
 		dir := fmt.Sprintf("%s/p%d-trace", tmp, pi)
@@ -792,7 +816,7 @@ func judge2(run *vlib.Run, pl *plan, wlFile, dir, mode, point string, crashOp in
 		run.Violation("tip-not-validated/"+mode+"/"+pname, "after reopen the tip is on a chain the reference finds invalid", wit)
 		return
 	}
-	if d := diffLists(rr.Opened.Utxo, utxoList(want)); d != "" {
+	if d := diffLists(rr.Opened.Utxo, refList(want)); d != "" {
 		wit["utxo_diff"] = d
 		run.Violation("utxo-not-replay-of-tip/"+mode+"/"+pname, "after reopen the UTXO set is not the replay of the reopened tip: "+d, wit)
 		return
